@@ -214,7 +214,31 @@ def random_vary(tier, seed, n=None):
             steps.append({"op": "tick", "d": d})
         out.append({"id": "rndvary/%06d" % i, "backend": "fs" if i % 10 == 0 else ("fsenc" if i % 10 == 5 else "mem"),
                     "opt": {}, "steps": steps, "grp": "", "spv": 0})
-    return out + refresh_cycles(tier) + reused_requests(tier) + unusual_values(tier)
+    return out + refresh_cycles(tier) + reused_requests(tier) + unusual_values(tier) + store_during_bg(tier)
+
+
+def store_during_bg(tier):
+    """while the background validation of a stale-while-revalidate serve is in flight, another variant of the resource (or
+    the resource of another URI) is stored by an ordinary miss; when the background answer has been written back, every
+    variant stored by then is still there"""
+    out = []
+    i = 0
+    for bgk in ("304", "full"):
+        for lat in (2, 4):
+            for other in ((0, 2), (0, 3), (1, 1)):   # (URI, selecting value) of the request in between
+                for nbetween in (1, 2):
+                    bg = ans(k="304", st=304, ccp=1, ma=100, etag=1, lat=lat) if bgk == "304" else ans(ccp=1, ma=100, etag=4, vary=[2], lat=lat)
+                    steps = [{"op": "req", "rq": rq(sel=[0, 0, 1, 0]), "ans": [ans(ccp=1, ma=3, swr=60, etag=1, vary=[2])]}, {"op": "tick", "d": 5},
+                             {"op": "req", "rq": rq(sel=[0, 0, 1, 0]), "ans": [bg]}, {"op": "tick", "d": 1}]
+                    for j in range(nbetween):
+                        steps += [{"op": "req", "rq": rq(u=other[0], sel=[0, 0, other[1] + j, 0]), "ans": [ans(ccp=1, ma=1000, etag=2 + j, vary=[2])]}]
+                    steps += [{"op": "tick", "d": lat + 1}]
+                    for j in range(nbetween):
+                        steps += [{"op": "req", "rq": rq(u=other[0], sel=[0, 0, other[1] + j, 0]), "ans": [ans(ccp=1, ma=1000, etag=7, vary=[2])]}]
+                    steps += [{"op": "req", "rq": rq(sel=[0, 0, 1, 0]), "ans": [ans(ccp=1, ma=1000, etag=7, vary=[2])]}]
+                    out.append({"id": "storebg/%03d" % i, "backend": "fs" if i % 3 == 0 else "mem", "opt": {}, "steps": steps, "grp": "", "spv": 0})
+                    i += 1
+    return out
 
 
 def unusual_values(tier):
